@@ -7,6 +7,8 @@ package config
 // resolved with the settings in effect at its line.
 
 import (
+	"errors"
+
 	"github.com/jmattheis/goverter/method"
 	"github.com/jmattheis/goverter/pkgload"
 )
@@ -32,6 +34,12 @@ func VerifHarness_C15_ConverterLines() {
 
 	var global, own RawLines
 	own.Location = "in.go:3"
+	global.Location = "command line (-g)"
+	// one of the extend lines may name a function that cannot be resolved: the diagnostic names where the line
+	// was written (the doc comment or the command line)
+	failing := nondetChoice("failing-extend-line", 4) // 3: none
+	extendSeen := 0
+	_ = extendSeen
 	for i, p := range picks {
 		if p == 0 {
 			continue
@@ -42,7 +50,12 @@ func VerifHarness_C15_ConverterLines() {
 			own.Lines = append(own.Lines, verifConverterLineMenu[p])
 		}
 		if p == 6 {
-			verifStubReturn(getMatching, []*method.Definition{{ID: "func example.org/m/in.F", Name: "F"}}, nil)
+			if i == failing {
+				verifStubReturn(getMatching, nil, errors.New("no function F"))
+			} else {
+				verifStubReturn(getMatching, []*method.Definition{{ID: "func example.org/m/in.F", Name: "F"}}, nil)
+			}
+			extendSeen++
 		}
 	}
 
@@ -55,6 +68,18 @@ func VerifHarness_C15_ConverterLines() {
 	before := verifEffectCount("call:" + getMatching)
 	c, err := parseConverter(ctx, raw, global)
 	verifReach("parsed")
+	if failing < 3 && picks[failing] == 6 {
+		verifReach("failing-extend")
+		verifAssert("unresolvable-extend-is-reported", err != nil)
+		if err != nil {
+			where := "in.go:3"
+			if failing == 0 && firstGlobal {
+				where = "command line (-g)"
+			}
+			verifAssert("diagnostic-names-where-the-line-was-written", VerifC15Contains(err.Error(), "\n    "+where+"\n"))
+		}
+		return
+	}
 	verifAssert("lines-accepted", err == nil && c != nil)
 	if err != nil || c == nil {
 		return
@@ -126,4 +151,13 @@ func VerifHarness_C15_ConverterLines() {
 	} else {
 		verifAssert("final-context-regex", c.ArgContextRegex != nil && c.ArgContextRegex.String() == regex)
 	}
+}
+
+func VerifC15Contains(s, sub string) bool {
+	for i := 0; i+len(sub) <= len(s); i++ {
+		if s[i:i+len(sub)] == sub {
+			return true
+		}
+	}
+	return false
 }
